@@ -46,6 +46,12 @@ RULES = [
     (r"Server::process_events/panic\('internal error: entered unreachable", "the only tokens ever registered with this Poll are the three that are matched", ["registered_tokens_subset_of_matched"]),
 ]
 
+EXTRA = [
+    {"key": "roughenough::server::Server::new/unwrap(parse('127.0.0.1:0'))", "property": "C15", "reason": "`fuzzing` feature only: parsing the constant literal \"127.0.0.1:0\" as a socket address cannot fail", "requires": []},
+    {"key": "roughenough::server::Server::new/unwrap(bind())", "property": "C15", "reason": "`fuzzing` feature only: helper socket bound to an ephemeral port (port 0) fails only on OS resource exhaustion", "requires": []},
+]
+
+
 def main():
     prop = sys.argv[1]
     roots = sys.argv[2:]
@@ -66,6 +72,9 @@ def main():
                 break
         else:
             print("UNASSIGNED", r["key"], r["detail"])
+    for e in EXTRA:
+        if e["key"] not in {x["key"] for x in cur}:
+            cur.append(e)
     json.dump({"_comment": "Panic sites that the prover cannot discharge automatically. One entry per site (no wildcards); "
                "`requires` names machine-checked facts (sa/audit_facts.py) that are re-checked on every run: when one stops holding the site is re-opened.",
                "sites": cur}, open(path, "w"), indent=1)
